@@ -79,9 +79,62 @@ def ints8Text (xs : List Int) (t : Bool) : Bytes :=
   let fields := (names.zip xs).map fun (n, i) => asciiBytes ("\"" ++ n ++ "\":") ++ decInt i
   [123] ++ (fields.intersperse [44]).flatten ++ asciiBytes ",\"T\":" ++ (if t then litTrue else litFalse) ++ [125]
 
+def b64Char (n : Nat) : UInt8 :=
+  if n < 26 then UInt8.ofNat (65 + n) else if n < 52 then UInt8.ofNat (71 + n)
+  else if n < 62 then UInt8.ofNat (n - 4) else if n = 62 then 43 else 47
+
+/-- base64.StdEncoding (with padding) -/
+def base64 : Bytes → Bytes
+  | a :: b :: c :: r =>
+    let n := a.toNat * 65536 + b.toNat * 256 + c.toNat
+    [b64Char (n / 262144), b64Char (n / 4096 % 64), b64Char (n / 64 % 64), b64Char (n % 64)] ++ base64 r
+  | [a, b] =>
+    let n := a.toNat * 65536 + b.toNat * 256
+    [b64Char (n / 262144), b64Char (n / 4096 % 64), b64Char (n / 64 % 64), 61]
+  | [a] =>
+    let n := a.toNat * 65536
+    [b64Char (n / 262144), b64Char (n / 4096 % 64), 61, 61]
+  | [] => []
+
+/-- a string or `n` (nil pointer) -/
+def parseOptStr : List Char → Option (Option Bytes × List Char)
+  | 'n' :: r => some (none, r)
+  | cs => (parseStr cs).map fun (s, r) => (some s, r)
+
+/-- compact text of `ownTagT` (go/harness/ops_own.go): `,string` quotes the quoted text once more -/
+def tagText (s : Bytes) (i : Int) (b : Bool) (o : Bytes) (oi : Int) (y mk mv : Bytes)
+    (p ps : Option Bytes) : Bytes :=
+  let qq := fun x => Str.quote (Str.quote x)
+  asciiBytes "{\"s\":" ++ qq s ++ asciiBytes ",\"i\":\"" ++ decInt i ++ asciiBytes "\",\"b\":\"" ++
+  (if b then litTrue else litFalse) ++ [34] ++
+  (if o.isEmpty then [] else asciiBytes ",\"o\":" ++ Str.quote o) ++
+  (if oi == 0 then [] else asciiBytes ",\"oi\":" ++ decInt oi) ++
+  asciiBytes ",\"y\":\"" ++ base64 y ++ asciiBytes "\",\"m\":{" ++ Str.quote mk ++ [58] ++ Str.quote mv ++
+  asciiBytes "},\"p\":" ++ (match p with | none => litNull | some x => Str.quote x) ++
+  asciiBytes ",\"ps\":" ++ (match ps with | none => litNull | some x => qq x) ++ [125]
+
+def parseTag (r : List Char) : Option (Val × List Char) := do
+  let (s, r) ← parseStr r
+  let (d, r) ← takeUntil ';' r []
+  let i ← intOf d
+  let (b, r) ← match r with
+    | 't' :: r => some (true, r)
+    | 'f' :: r => some (false, r)
+    | _ => none
+  let (o, r) ← parseStr r
+  let (d, r) ← takeUntil ';' r []
+  let oi ← intOf d
+  let (y, r) ← parseStr r
+  let (mk, r) ← parseStr r
+  let (mv, r) ← parseStr r
+  let (p, r) ← parseOptStr r
+  let (ps, r) ← parseOptStr r
+  some (.lit (tagText s i b o oi y mk mv p ps), r)
+
 mutual
 def parseVal : Nat → List Char → Option (Val × List Char)
   | 0, _ => none
+  | _ + 1, 'T' :: r => parseTag r
   | _ + 1, 'j' :: w :: r =>
     if isWidth w then do
       let (d, rest) ← takeUntil ';' r []
